@@ -201,6 +201,17 @@ def tweak(rng, row, w, case):
         st_[k] = gen.DATA[0] + 4 * rng.randrange(2, 0x3E)
     else:
         k = gen.bank_key(f['n'], mode) if f['n'] <= 14 else None
+    if k and 'drsrs[11]' in st_ and rng.random() < 0.08:
+        # the access hits the word that holds the instruction itself, inside a small region that may be read (the fetch has just read it) but not
+        # written at this privilege: the permission of a store is decided by its own direction, not by what an earlier access to the same word was allowed
+        pc = st_['R.PC'] & ~3
+        imm = f.get('i', 0) if (f.get('P', 1) and 'i' in f and not row.name.endswith(('_T1', '_T2')) or 'P' not in f and 'i' in f and len(row.fields.get('i', ())) == 12) else 0
+        st_[k] = (pc - imm if f.get('U', 1) else pc + imm) & 0xFFFFFFFF
+        st_['drsrs[11]'] = (4 << 1) | 1
+        st_['drbars[11]'] = pc & ~31
+        st_['dracrs[11]'] = rng.choice((5, 6, 6, 2, 3, 1)) << 8
+        st_['mpuir'] = 12 << 8
+        return
     if k and 'drsrs[11]' in st_ and rng.random() < 0.2:
         # the smallest region there is (4 bytes) with a restrictive AP on one word of the transfer: the second word of a doubleword access, one slot
         # of a multiple transfer - every word is checked on its own
